@@ -76,6 +76,7 @@ def gen_plan(seed, tier):
     plan = ensembles.gen_ensemble_plan(rng, seed, tier, ID)
     plan['kind'] = 'ensemble'
     plan['maps'] = ensembles.map_specs(rng, tier, 2)
+    plan['instance_order'] = sub_rng(seed, 'plan.c07.inst').random() < 0.25
     plan['modes'] = ['solve', 'solve_step', 'steps', 'while'] if rng.random() < 0.5 else ['solve', 'steps', 'while']
     if plan['limits'][0] is None:
         plan['maps'] = [{'mode': rng.choice(['serial', 'shuffled', 'reversed']), 'salt': 0}]
@@ -197,9 +198,23 @@ def run_ens(plan, run, violate, stats):
             if ms.get('mode') == 'process' and m != 'solve' and (plan.get('limits') or [99])[0] > 8: continue
             variants.append((ms, m))
     finals = {}; stepwise = {}
-    for vi, (mspec, mode) in enumerate(variants):
+    if plan.get('instance_order'):
+        # a configured nested-solver instance: configuring it BEFORE or AFTER it is handed to the ensemble (SetNestedSolver) is
+        # the same configuration -- the order of the Set* calls made beforehand must not matter
+        variants = [(None, 'solve', 'before'), (None, 'solve', 'after')] + [(a_, b_, None) for a_, b_ in variants[:2]]
+    else:
+        variants = [(a_, b_, None) for a_, b_ in variants]
+    inst_finals = {}
+    for vi, (mspec, mode, iorder) in enumerate(variants):
         _random.seed(plan['lib_seed']); numpy.random.seed(plan['lib_seed'] % (2 ** 32))
-        s, peers = ensembles.build_ensemble(plan, run, mspec)
+        if iorder == 'before':
+            s, peers = ensembles.build_ensemble(plan, run, mspec, instance=ensembles.nested_instance(plan))
+        elif iorder == 'after':
+            inst_ = ensembles.nested_instance(plan, configured=False)
+            s, peers = ensembles.build_ensemble(plan, run, mspec, instance=inst_)
+            ensembles.configure_instance(inst_, plan)
+        else:
+            s, peers = ensembles.build_ensemble(plan, run, mspec)
         snaps = [] if mode == 'steps' else None
         b0 = run.ncross
         try:
@@ -222,8 +237,19 @@ def run_ens(plan, run, violate, stats):
                     % (mspec, mode, type(e).__name__, str(e)[:200]), map=(mspec or {}).get('mode', 'python_map'), mode=mode)
             continue
         stats['variants'] += 1; stats['steps'] += (len(snaps) if snaps else fin['generations'] + 1)
+        if iorder is not None:
+            inst_finals[iorder] = fin; run.probe('c07.instance_order_variant')
+            continue
         finals[(vi, (mspec or {}).get('mode', 'python_map'), mode)] = fin
         if snaps is not None: stepwise[(vi, (mspec or {}).get('mode', 'python_map'))] = snaps
+    if len(inst_finals) == 2:
+        KEYS_ = ('bestEnergy', 'bestSolution', 'all_bestEnergy', 'all_bestSolution', 'total_evals', 'all_evals', 'all_iters', 'nmembers')
+        d = first_diff({k: inst_finals['before'][k] for k in KEYS_}, {k: inst_finals['after'][k] for k in KEYS_})
+        if d:
+            violate('trajectory_depends_on_set_order', 'ensemble %s/%s with a configured nested instance: configuring the instance after '
+                    'SetNestedSolver(instance) gives a different run than configuring it before: %s' % (plan['ensemble'], plan['nested'], d[:300]),
+                    mode='solve', map='python_map')
+            return
     # (a) same mode, different maps: identical results
     by_mode = {}
     for (vi, mname, mode), fin in finals.items():
